@@ -36,6 +36,25 @@ pub fn point(name: &'static str, arg: u64) {
     }
 }
 
+type NoteHook = Box<dyn Fn(&str) + Send + Sync>;
+
+static NOTE_HOOK: RwLock<Option<NoteHook>> = RwLock::new(None);
+
+/// Installs (or removes) the function that receives structured notes about the steps of
+/// `rebalance` / `spill` (which node is merged into which sibling, where a node is split, ...).
+pub fn set_note_hook(h: Option<NoteHook>) {
+    *NOTE_HOOK.write().unwrap() = h;
+}
+
+#[inline]
+pub(crate) fn note<F: FnOnce() -> String>(f: F) {
+    if let Ok(g) = NOTE_HOOK.read() {
+        if let Some(h) = g.as_ref() {
+            h(&f());
+        }
+    }
+}
+
 /// The shared (committed) free list: free pages, and pending pages by freeing transaction.
 pub fn shared_freelist(db: &DB) -> (Vec<u64>, Vec<(u64, Vec<u64>)>) {
     db.inner.freelist.lock().unwrap().verif_state()
